@@ -235,9 +235,49 @@ def run(ctx):
             g = graph.Graph.load(res.dot)
             n = replay(ctx, g, files, n)
             os.unlink(res.dot)
+        reuse(ctx, files)
     finally:
         shutil.rmtree(files.dir, True)
     ctx.exhaustive = True
+
+
+def reuse(ctx, files):
+    """one response object answering several requests in a row (an application object lives as long as the server): each answer
+    is what a fresh object gives for the same request"""
+    import itertools
+    reqs = [("GET", (fl(0, 1),)), ("GET", ()), ("HEAD", ()), ("GET", (fl(0, 1), fl(5, 6))), ("GET", (fl(2, 2),)), ("GET", (fl(20, 30),)), ("HEAD", (fl(1, 3),))]
+    for size, chunk in ((10, 4), (8, 4)):
+        path, data, st = files.get(size)
+        for iface in ("wsgi", "asgi", "zerocopy"):
+            for order in itertools.permutations(range(len(reqs)), 3):
+                if iface == "wsgi":
+                    from baize.wsgi import FileResponse
+                else:
+                    from baize.asgi import FileResponse
+                shared = FileResponse(path, content_type=CT, chunk_size=chunk, stat_result=st)
+                hist = []
+                for i in order:
+                    method, specs = reqs[i]
+                    c = {"size": size, "chunk": chunk, "iface": iface, "method": method, "specs": specs, "hasRange": bool(specs), "ifr": "absent"}
+                    fresh = execute(c, files)
+                    req = servers.Req(method=method, path="/f", headers=headers_of(c, path, st))
+                    if iface == "wsgi":
+                        r = servers.wsgi_call(shared, req)
+                        hdr = dict((k.lower(), v) for k, v in r.headers)
+                    else:
+                        r = servers.asgi_call(shared, req, extensions={"http.response.zerocopysend": {}} if iface == "zerocopy" else None)
+                        hdr = dict((k.decode("latin-1").lower(), v.decode("latin-1")) for k, v in r.headers)
+                    ctx.count()
+                    strip = lambda h: {k: (v if "boundary=" not in v else "multipart/byteranges; boundary=*") for k, v in h.items()}  # noqa
+                    hist.append("%s %s" % (method, c03.render([dict(x) for x in specs], 0) if specs else "-"))
+                    same_len = len(r.body) == len(fresh["body"])
+                    if r.status != fresh["status"] or strip(hdr) != strip(fresh["hdr"]) or not same_len or ("boundary=" not in hdr.get("content-type", "") and r.body != fresh["body"]):
+                        diff = sorted(k for k in set(hdr) | set(fresh["hdr"]) if strip(hdr).get(k) != strip(fresh["hdr"]).get(k))
+                        ctx.violation({"size": size, "chunk": chunk, "iface": iface, "requests_on_one_response_object": list(hist)},
+                                      {"status": fresh["status"], "headers": fresh["hdr"]}, {"status": r.status, "headers": hdr, "body_len": len(r.body)},
+                                      "a response object that has answered a request answers the next one differently from a fresh one (%s)" % (", ".join(diff) or "status / body"))
+                        break
+                ctx.nontriv(("reuse", size, iface, order))
 
 
 def replay(ctx, g, files, n):
